@@ -215,7 +215,7 @@ def lemma_cwr_ge_n(n: int, p: int):
 
 
 @contract("mchap.jitutils.genotype_alleles_as_index", machine_ints=True, props=["C11"])
-def genotype_alleles_as_index(alleles: A[i8, 1]) -> int:
+def genotype_alleles_as_index(alleles: A[iN, 1]) -> int:
     requires(len(alleles) >= 1)
     requires(forall(0, len(alleles), lambda t: alleles[t] >= 0))
     requires(forall(1, len(alleles), lambda t: alleles[t - 1] <= alleles[t]))
